@@ -30,6 +30,14 @@ CHECKS = {
             "Knot locator only aims inputs; inverse direction checked for order/range/end-points with slope-scaled tolerance "
             "(its accuracy is C02/C19); boxes whose bins fall below the dtype's resolution are skipped (counted by label).",
             "DESIGN.md 3/C09"),
+    "C17": ("Hypothesis-generated boundary probes (on / 1,2,8 ulp inside / 1,2,8 ulp outside / far) at any batch position, for "
+            "every domain-restricted transform and direction, float32 and float64; exception-type and finiteness oracle",
+            "Exploration: one probe element placed relative to the domain edge (in the working dtype) among valid elements, for "
+            "Exp/Tanh/Sigmoid inverses, Logit, CauchyCDF inverse, spline functions with generated boxes, tail bounds 1e-3..1e4, CDF "
+            "classes, coupling and autoregressive wrappers: outside => InputOutsideDomain (exact type), inside => finite, no exception.",
+            "Domain edges are the documented bounds rounded to the input dtype; wrappers probed only on features whose box is "
+            "parameter-independent; non-finite results under conditioner outputs beyond |10| are inconclusive.",
+            "DESIGN.md 3/C17"),
     "C20": ("exhaustive small-shape enumeration + Hypothesis generation against numpy reference models; bit-level "
             "argument-unchanged comparison",
             "Exploration: every utils helper on an exhaustive grid of small shapes/integer arguments and on generated "
